@@ -282,10 +282,30 @@ def main():
                 res = cexmod.run_group(g)
                 bounded.append(dict(harness='cex/' + gname, bound='small input grid, see the file', status='failed' if res['found'] else 'no failing input', reason=reason))
                 if res['found']:
-                    fl = verusrun.Failure('bounded.%s' % gname[:-3], 'bounded', 'bounded stand-in found a failing input on the real code (%s)' % reason[:80],
-                                          '', res['text'], gname)
-                    bounded_found.append(fl)
-                    violations.append((fl, None, True))
+                    # a failing input that carries `[finding-key K]` is matched against known_findings.txt (obligation=bounded.<group>
+                    # site="K"): listed for this property -> KNOWN-FINDING; listed for another property only -> not this property's
+                    # business; every other failing input is a violation
+                    oname = 'bounded.%s' % gname[:-3]
+                    lines = re.findall(r'CEX [^\n]*', res['text'])
+                    rest = []
+                    for ln in lines:
+                        km = re.search(r'\[finding-key ([\w-]+)\]', ln)
+                        kfs = [k for k in findings if km and k['obligation'] == oname and k['site'] == km.group(1)]
+                        if kfs and any(pid in k['props'] for k in kfs):
+                            kf = next(k for k in kfs if pid in k['props'])
+                            known.append((verusrun.Failure(oname, 'bounded', 'recorded finding reproduced by the bounded stand-in', km.group(1), ln, gname), kf))
+                        elif kfs:
+                            out_of_scope.append('%s @ "%s"' % (oname, km.group(1)))
+                        else:
+                            rest.append(ln)
+                    if rest or not lines:
+                        txt = res['text'] if len(rest) == len(lines) else ('failing input(s) found on the real crate (scratch copy + appended test module %s):\n%s\n' % (gname, '\n'.join(rest)))
+                        fl = verusrun.Failure(oname, 'bounded', 'bounded stand-in found a failing input on the real code (%s)' % reason[:80],
+                                              '', txt, gname)
+                        bounded_found.append(fl)
+                        violations.append((fl, None, True))
+                    else:
+                        bounded[-1]['status'] = 'only recorded findings reproduced'
         except Exception as e:
             undecided.append('bounded stand-in: %s' % e)
     if kres:
